@@ -197,10 +197,6 @@ pub fn classify(req: &[u8], keys: &[Key], now: u64) -> Classified {
         return structure(m);
     }
     let last = m.additional.last().unwrap().clone();
-    if last.ttl & 0x8000_0000 != 0 {
-        // RFC 2181 §8 reads such a TTL as zero; RFC 8945 wants zero. Left to C08.
-        return oos("tsig-ttl-msb", Some(m));
-    }
     if !rm::tsig_class_ttl_ok(&last) {
         return structure(m);
     }
@@ -620,6 +616,11 @@ fn timing(thorough: bool) -> Vec<(u64, u64, u16)> {
         (T48_MAX, T48_MAX - 65536, 65535),
         (T48_MAX - 300, T48_MAX, 300),
         (T48_MAX - 301, T48_MAX, 300),
+        // time signed < fudge: the window starts at 0, it does not wrap.
+        (0, 100, 300),
+        (400, 100, 300),
+        (401, 100, 300),
+        (T48_MAX, T48_MAX - 100, 300),
     ]);
     v.sort();
     v.dedup();
@@ -672,7 +673,7 @@ fn product_family(ctx: &Ctx, w: &World) {
         rm::long_name(b'a', b'g'),
     ];
     let qs: Vec<usize> = if th { (0..w.questions.len()).collect() } else { vec![0, 1, 2, 3] };
-    let edns: Vec<Option<u16>> = if th { vec![None, Some(512), Some(1232), Some(4096)] } else { vec![None, Some(1232)] };
+    let edns: Vec<Option<u16>> = if th { vec![None, Some(512), Some(4096)] } else { vec![None, Some(1232)] };
     let mut outer = Vec::new();
     for ks in 0..w.keysets.len() {
         for (kn, compress) in &key_names {
@@ -900,6 +901,10 @@ fn structure_family(ctx: &Ctx, w: &World) {
         let mut v = req.clone();
         v[base_len + klen + 4] = 0x7f;
         variants.push(("tsig-ttl-big", v));
+        // RFC 8945 §4.2: the TTL field must be 0; 0x80000000 is not 0 (D17).
+        let mut v = req.clone();
+        v[base_len + klen + 4] = 0x80;
+        variants.push(("tsig-ttl-msb", v));
         for (name, r) in variants {
             let out = check_one(w, *ks, &r, NOW0, *tp);
             if name != "as-built" && out.expect != Expect::FormErrStructure {
